@@ -240,6 +240,8 @@ def make_object(name):
     if kind == "ld":
         ts = _ts(rest)
         return tskit.LdCalculator(ts), _ctx(ts)
+    if kind == "mod":
+        return tskit, _ctx(_ts("ts_one"))
     raise KeyError(name)
 
 
@@ -438,10 +440,74 @@ def call_plans(obj, ctx, mname, pairs=True):
     return [((), d) for d in plans]
 
 
+TEXTS = {
+    "nodes": ["is_sample\ttime\n1\t0\n0\t1\n", "is_sample\ttime\n", "", "garbage\n", "time\n0\n",
+              "is_sample\ttime\tpopulation\tindividual\tmetadata\n1\t0\t-5\t99999999999\t!!notb64\n",
+              "is_sample\ttime\nx\ty\n", "is_sample\ttime\n1\n", "is_sample\ttime\n1\tnan\n\n\n"],
+    "edges": ["left\tright\tparent\tchild\n0\t1\t1\t0\n", "left\tright\tparent\tchild\n", "", "x\n",
+              "left\tright\tparent\tchild\n0\t1\t1\t0,0,-7\n", "left\tright\tparent\tchild\nnan\tinf\t99999999999\t-1\n",
+              "left\tright\tparent\tchild\tmetadata\n0\t1\t1\t0\t%%%\n", "left\tright\tparent\n0\t1\t1\n"],
+    "sites": ["position\tancestral_state\n0\tA\n", "position\n0\n", "", "position\tancestral_state\tmetadata\n-1\t\t=\n",
+              "position\tancestral_state\nx\tA\n"],
+    "mutations": ["site\tnode\tderived_state\n0\t0\tT\n", "site\tnode\n0\t0\n", "",
+                  "site\tnode\tderived_state\tparent\ttime\tmetadata\n9\t-3\t\t7\tunknown\t*\n",
+                  "site\tnode\tderived_state\ttime\n0\t0\tT\tnotanumber\n"],
+    "individuals": ["flags\tlocation\tparents\n0\t1.5,2\t-1,0\n", "flags\n", "", "flags\tlocation\tparents\nx\ta,b\tc\n",
+                    "flags\tlocation\tparents\tmetadata\n0\t,,\t,\t\n"],
+    "populations": ["metadata\nYQ==\n", "", "metadata\n!!!\n", "id\n0\n"],
+    "migrations": ["left\tright\tnode\tsource\tdest\ttime\n0\t1\t0\t0\t1\t0.5\n", "", "left\n0\n",
+                   "left\tright\tnode\tsource\tdest\ttime\tmetadata\nnan\t-1\t-9\t99999999999\tx\tinf\t?\n"],
+}
+
+
+def module_plans():
+    """(function name, args dict) for the module-level load / parse / pack functions."""
+    import numpy as np
+
+    plans = []
+    for tab, texts in TEXTS.items():
+        for t in texts:
+            for strict in (True, False):
+                kw = {"source": ("TEXT", t), "strict": strict}
+                if tab not in ("edges",):
+                    for b64 in (True, False):
+                        plans.append((f"parse_{tab}", dict(kw, base64_metadata=b64)))
+                else:
+                    plans.append((f"parse_{tab}", kw))
+    for n in TEXTS["nodes"][:6]:
+        for e in TEXTS["edges"][:6]:
+            for extra in ({}, {"sites": ("TEXT", TEXTS["sites"][0]), "mutations": ("TEXT", TEXTS["mutations"][0])},
+                          {"sites": ("TEXT", TEXTS["sites"][3]), "mutations": ("TEXT", TEXTS["mutations"][3])},
+                          {"individuals": ("TEXT", TEXTS["individuals"][3]), "populations": ("TEXT", TEXTS["populations"][2]),
+                           "migrations": ("TEXT", TEXTS["migrations"][3])}):
+                for L in (0, -1, 5, math.nan):
+                    plans.append(("load_text", dict(nodes=("TEXT", n), edges=("TEXT", e), sequence_length=L, strict=False,
+                                                   **extra)))
+    for path in ("/nonexistent/x.trees", "/dev/null", "/", "", "/proc/self/status", None, 5, b"\x89KAS"):
+        for kw in ({}, {"skip_tables": True}, {"skip_reference_sequence": True}):
+            plans.append(("load", dict(file=path, **kw)))
+    arrs = [np.array([], dtype=np.int8), np.array([1, 2, 3], dtype=np.int8), np.zeros(4)]
+    offs = [np.array([0], dtype=np.uint64), np.array([0, 3], dtype=np.uint64), np.array([0, 10], dtype=np.uint64),
+            np.array([3, 0], dtype=np.uint64), np.array([], dtype=np.uint64), np.array([0, 2 ** 63], dtype=np.uint64),
+            np.array([-1, 2]), "x"]
+    for a in arrs:
+        for o in offs:
+            for fn in ("unpack_bytes", "unpack_strings", "unpack_arrays"):
+                plans.append((fn, dict(packed=a, offset=o)))
+    for data in ([], [b""], [b"a", b""], ["x"], [None], "x", [[1, 2], []], [[1.5], ["a"]]):
+        for fn, key in (("pack_bytes", "data"), ("pack_strings", "strings"), ("pack_arrays", "list_of_lists")):
+            plans.append((fn, {key: data}))
+    return plans
+
+
 def resolve(args, obj, objname):
+    import io
+
     out = {}
     for k, v in args.items():
-        if isinstance(v, str) and v == "SELFLIKE":
+        if isinstance(v, tuple) and len(v) == 2 and v[0] == "TEXT":
+            v = io.StringIO(v[1])
+        elif isinstance(v, str) and v == "SELFLIKE":
             v = make_object(objname)[0]
         elif isinstance(v, str) and v == "OTHER":
             import tskit
@@ -555,7 +621,7 @@ def consume(r):
 
 # ----------------------------------------------------------------------------- shards
 def object_names(tier):
-    names = ["ts:ts_full", "ts:ts_one", "ts:ts_noedges", "ts:ts_empty", "ts:ts_nosamples",
+    names = ["mod:tskit", "ts:ts_full", "ts:ts_one", "ts:ts_noedges", "ts:ts_empty", "ts:ts_nosamples",
              "tree:ts_full/null", "tree:ts_full/first", "tree:ts_full/last", "tree:ts_noedges/first",
              "var:ts_full/undecoded", "var:ts_full/decoded", "ibd:ts_full", "ld:ts_full"]
     cors = CORRUPTIONS_QUICK if tier == "quick" else CORRUPTIONS_ALL
@@ -586,6 +652,10 @@ def shards(tier, seed):
 
 
 def iter_single(objname, part=0, parts=1, pairs=True):
+    if objname.startswith("mod:"):
+        for i, (fn, args) in enumerate(module_plans()):
+            yield i, fn, args
+        return
     obj, ctx = make_object(objname)
     meths, props = methods_of(obj)
     i = 0
